@@ -2,10 +2,155 @@ package bbc
 
 import (
 	"bytes"
+	"encoding/binary"
+	"encoding/hex"
 	"fmt"
+	"hash/crc32"
 	"math/rand"
+	"os"
+	"os/exec"
+	"regexp"
+	"runtime"
+	"strings"
+	"syscall"
 	"testing"
 )
+
+// The payload of a transmission is an xz container: stream header (12 bytes), blocks (header with its own CRC32, LZMA2 data,
+// padding, check), index (0x00, number of records as a varint, records, padding, CRC32), footer. The container's own length and
+// count fields are read by IncomingTransmission.Bundle from bytes a radio neighbour chose: the number of index records and the
+// dictionary size of the LZMA2 filter are sizes the decoder allocates from.
+
+func vxzUvarint(v uint64) []byte {
+	var b []byte
+	for v >= 0x80 {
+		b = append(b, byte(v)|0x80)
+		v >>= 7
+	}
+	return append(b, byte(v))
+}
+
+// vxzBlockHeader builds a block header with a correct CRC32: optional compressed / uncompressed size fields, the LZMA2 filter with
+// the given dictionary size byte.
+func vxzBlockHeader(dict byte, csize, usize *uint64) []byte {
+	var flags byte
+	body := []byte{}
+	if csize != nil {
+		flags |= 0x40
+		body = append(body, vxzUvarint(*csize)...)
+	}
+	if usize != nil {
+		flags |= 0x80
+		body = append(body, vxzUvarint(*usize)...)
+	}
+	body = append(body, 0x21, 0x01, dict)
+	h := append([]byte{0, flags}, body...)
+	for (len(h)+4)%4 != 0 {
+		h = append(h, 0)
+	}
+	h[0] = byte((len(h)+4)/4 - 1)
+	var c [4]byte
+	binary.LittleEndian.PutUint32(c[:], crc32.ChecksumIEEE(h))
+	return append(h, c[:]...)
+}
+
+// vxzSite names the container field a hostile payload aims at ("" if none): used to tell the call sites of the decoder apart.
+func vxzSite(p []byte) string {
+	if len(p) < 13 || !bytes.Equal(p[:6], []byte{0xfd, '7', 'z', 'X', 'Z', 0}) {
+		return ""
+	}
+	if p[12] == 0 {
+		return "xz-index-count"
+	}
+	hl := (int(p[12]) + 1) * 4
+	if len(p) < 12+hl {
+		return ""
+	}
+	h := p[12 : 12+hl]
+	if crc32.ChecksumIEEE(h[:hl-4]) != binary.LittleEndian.Uint32(h[hl-4:]) {
+		return ""
+	}
+	// the filter's property byte is the last non-padding byte before the CRC when the filter is LZMA2
+	if i := bytes.Index(h[2:hl-4], []byte{0x21, 0x01}); i >= 0 && 2+i+2 < hl-4 && h[2+i+2] > 0x16 {
+		return "xz-dict-size"
+	}
+	if h[1]&0xc0 != 0 {
+		return "xz-block-sizes"
+	}
+	return ""
+}
+
+var vxzFrame = regexp.MustCompile(`(?m)^([A-Za-z0-9_./\-]+\.[A-Za-z0-9_(*).]+)\(`)
+
+// vxzChild runs one payload in a process of its own (this test binary, TestVerifC04BbcChild): an allocation beyond the address
+// space limit ends the process with a fatal error no recover() catches.
+func vxzChild(payload []byte) string {
+	cmd := exec.Command(os.Args[0], "-test.run", "^TestVerifC04BbcChild$", "-test.v")
+	cmd.Env = append(os.Environ(), "VERIF_CHILD_HEX="+hex.EncodeToString(payload), "VERIF_OUT="+os.DevNull)
+	out, err := cmd.CombinedOutput()
+	s := string(out)
+	if i := strings.Index(s, "CHILD-RESULT["); i >= 0 {
+		j := strings.Index(s[i:], "]END")
+		if j > 0 {
+			return s[i+len("CHILD-RESULT[") : i+j]
+		}
+	}
+	if err != nil {
+		for _, mark := range []string{"fatal error:", "panic:"} {
+			if i := strings.Index(s, mark); i >= 0 {
+				first := strings.SplitN(s[i:], "\n", 2)[0]
+				site := ""
+				for _, m := range vxzFrame.FindAllStringSubmatch(s[i:], -1) {
+					if !strings.HasPrefix(m[1], "runtime.") {
+						site = m[1]
+						if k := strings.LastIndex(site, "/"); k >= 0 {
+							site = site[k+1:]
+						}
+						break
+					}
+				}
+				return "crash: " + first + " in " + site
+			}
+		}
+		return "infra: child failed: " + err.Error() + ": " + s[:minI(len(s), 300)]
+	}
+	return "infra: child gave no result: " + s[:minI(len(s), 300)]
+}
+
+func TestVerifC04BbcChild(t *testing.T) {
+	h := os.Getenv("VERIF_CHILD_HEX")
+	if h == "" {
+		t.Skip("child of TestVerifC04Bbc only")
+	}
+	payload, err := hex.DecodeString(h)
+	if err != nil {
+		t.Fatal(err)
+	}
+	var lim syscall.Rlimit
+	if syscall.Getrlimit(syscall.RLIMIT_AS, &lim) == nil {
+		lim.Cur = 6 << 30
+		_ = syscall.Setrlimit(syscall.RLIMIT_AS, &lim)
+	}
+	var before, after runtime.MemStats
+	runtime.ReadMemStats(&before)
+	res := ""
+	func() {
+		defer func() {
+			if p := recover(); p != nil {
+				res = fmt.Sprintf("panic: %v", p)
+			}
+		}()
+		it, err := NewIncomingTransmission(NewFragment(1, 1, true, true, false, payload))
+		if err == nil {
+			_, _ = it.Bundle()
+		}
+	}()
+	runtime.ReadMemStats(&after)
+	if d := after.TotalAlloc - before.TotalAlloc; res == "" && d > uint64(48<<20+256*len(payload)) {
+		res = fmt.Sprintf("balloon: %d bytes allocated for %d bytes of input", d, len(payload))
+	}
+	fmt.Printf("CHILD-RESULT[%s]END\n", res)
+}
 
 func TestVerifC04Bbc(t *testing.T) {
 	n := 0
@@ -26,17 +171,67 @@ func TestVerifC04Bbc(t *testing.T) {
 		t.Fatal("cannot build the base transmission")
 	}
 	xzs := frs[0].Payload
+	forced := ""
 	try := func(payload []byte, note string) {
 		n++
-		p := vhGuard(len(payload), func() {
-			it, err := NewIncomingTransmission(NewFragment(1, 1, true, true, false, payload))
-			if err == nil {
-				_, _ = it.Bundle()
-			}
-		})
-		if p != "" {
-			vhViol("robust/bbc-transmission/"+vhClass(p), fmt.Sprintf("IncomingTransmission.Bundle, %s: %s", note, p), vhRec{"payload": fmt.Sprintf("%x", payload[:minI(len(payload), 64)]), "note": note})
+		site := vxzSite(payload)
+		if forced != "" {
+			site = forced
 		}
+		var p string
+		if site != "" {
+			// aims at a size field of the container: in a process of its own
+			p = vxzChild(payload)
+			if strings.HasPrefix(p, "infra:") {
+				t.Fatal(p)
+			}
+		} else {
+			p = vhGuard(len(payload), func() {
+				it, err := NewIncomingTransmission(NewFragment(1, 1, true, true, false, payload))
+				if err == nil {
+					_, _ = it.Bundle()
+				}
+			})
+		}
+		if p != "" {
+			key := "robust/bbc-transmission/" + vhClass(p)
+			if site != "" {
+				key += "/" + site
+			}
+			vhViol(key, fmt.Sprintf("IncomingTransmission.Bundle, %s: %s", note, p), vhRec{"payload": fmt.Sprintf("%x", payload[:minI(len(payload), 64)]), "note": note})
+		}
+	}
+	// the container's own size fields at the boundary values, with correct header checksums
+	bounds := []uint64{0, 1, 23, 24, 1 << 16, 1<<31 - 1, 1 << 31, 1<<32 - 1, 1 << 62, 1 << 63, 1<<64 - 1}
+	hl := (int(xzs[12]) + 1) * 4
+	idx := bytes.LastIndex(xzs[:len(xzs)-12], []byte{0x00, 0x01}) // index of the single-block stream: indicator, one record
+	if hl != 12 || idx < 12+hl {
+		t.Fatalf("unexpected layout of the base xz stream: header %d index %d", hl, idx)
+	}
+	for _, v := range append([]uint64{1 << 24}, bounds...) { // 2^24 records: large enough to be measured, small enough to be granted
+		cnt := vxzUvarint(v)
+		try(append(append([]byte{}, xzs[:12]...), append(append([]byte{0}, cnt...), make([]byte, 24)...)...), fmt.Sprintf("xz index right after the stream header, number of records %d", v))
+		m := append(append(append([]byte{}, xzs[:idx+1]...), cnt...), xzs[idx+2:]...)
+		forced = "xz-index-count"
+		try(m, fmt.Sprintf("xz index after the block, number of records %d", v))
+		forced = ""
+		v := v
+		for _, which := range []string{"compressed", "uncompressed", "both"} {
+			var c, u *uint64
+			if which != "uncompressed" {
+				c = &v
+			}
+			if which != "compressed" {
+				u = &v
+			}
+			m := append(append(append([]byte{}, xzs[:12]...), vxzBlockHeader(0x16, c, u)...), xzs[12+hl:]...)
+			try(m, fmt.Sprintf("xz block header declares %s size %d", which, v))
+		}
+	}
+	for d := 0; d <= 41; d++ {
+		m := append(append(append([]byte{}, xzs[:12]...), vxzBlockHeader(byte(d), nil, nil)...), xzs[12+hl:]...)
+		try(m, fmt.Sprintf("xz block header declares dictionary size byte %d", d))
+		try(m[:12+hl+3], fmt.Sprintf("xz block header declares dictionary size byte %d, stream ends after three more bytes", d))
 	}
 	for i := 0; i <= len(xzs); i++ {
 		try(xzs[:i], fmt.Sprintf("xz stream truncated at %d", i))
